@@ -243,7 +243,9 @@ def check_finitary(ix, rep, modname, rule='R-ORD'):
         if isinstance(st, ast.If):
             src = ast.unparse(st).replace(' ', '')
             for nm in (p1n, p2n):
-                if src.startswith("if%s[-1][0]<float('inf'):" % nm) and "%s.append([float('inf'),%s[-1][1]])" % (nm, nm) in src:
+                ext = "[float('inf'),%s[-1][1]]" % nm
+                forms = ("%s.append(%s)" % (nm, ext), "%s=%s+[%s]" % (nm, nm, ext), "%s=list(%s)+[%s]" % (nm, nm, ext), "%s+=[%s]" % (nm, ext), "%s.extend([%s])" % (nm, ext))
+                if src.startswith("if%s[-1][0]<float('inf'):" % nm) and any(fm in src for fm in forms):
                     ok += 1
     if ok == 2:
         rep.ok(rule, m.rel, 'intersection', 'finitary-extension', 'both operands are extended with [inf, last value] (last value held)', f.node.lineno)
